@@ -14,6 +14,7 @@ struct DocOpts {
     ValueOpts vo;
     bool long_values = false;     // occasionally a single-line value near / beyond the 2048 line limit
     bool hard_text = false;       // add strings built from delimiter-defeating fragments
+    bool cr_values = false;       // occasionally a string holding CR / CR LF (reads back with LF)
     bool api_domain = false;      // names/codes may use the full CIF 2.0 repertoire (incl. supplementary); values per vo
 };
 
@@ -139,6 +140,15 @@ inline Gen<Value> doc_value(const DocOpts &o) {
                                   ustr s = HEAD[std::get<1>(t)]; s += ustr((size_t) std::get<0>(t), u';'); s += TAIL[std::get<2>(t)];
                                   return Value::chr(s, true);
                               });
+    // values holding carriage returns (lone, or as CR LF): a CIF file cannot tell them from LF, so they read back as LF -- and a ';'
+    // behind one starts a line just as it does behind LF
+    auto crv = rc::gen::map(rc::gen::tuple(range(0, 9), range(0, 0x3fffffff)), [](std::tuple<int, int> t) {
+        static const char16_t *S[] = {u"abc\r;def", u"a\r\n;b", u"x\ry", u"x\r", u"\r;", u"a;\rb\r", u"l1\rl2\nl3", u"it's \"q\" \r;x", u"p\r\r;q", u"s\n;t\r;u"};
+        ustr s = S[std::get<0>(t)]; uint32_t r = (uint32_t) std::get<1>(t);
+        if (r & 1) s += u" tail"; if (r & 2) s = u"head " + s;
+        return Value::chr(s, true);
+    });
+    if (o.hard_text && o.cr_values) return rc::gen::weightedOneOf<Value>({{30, value(o.vo, 0)}, {1, longv}, {1, foldv}, {1, tailv}, {1, pfxv}, {1, semiv}, {1, crv}, {7, hard_text(o.dialect == cp::CIF11)}, {1, mimic_text(o.dialect == cp::CIF11)}});
     if (o.hard_text) return rc::gen::weightedOneOf<Value>({{30, value(o.vo, 0)}, {1, longv}, {1, foldv}, {1, tailv}, {1, pfxv}, {1, semiv}, {7, hard_text(o.dialect == cp::CIF11)}, {1, mimic_text(o.dialect == cp::CIF11)}});
     return rc::gen::weightedOneOf<Value>({{30, value(o.vo, 0)}, {1, longv}, {1, foldv}, {1, tailv}, {1, pfxv}, {1, semiv}});
 }
